@@ -74,7 +74,7 @@ TARGETS = [
         "build_cumulative_output.get_indexed_cumsum",
     ]),
     ("functions/util.py", [
-        "piecewise_constant", "binary_search_sum_ge",   # with cond / body
+        "piecewise_constant", "windowed_constant", "binary_search_sum_ge",   # with cond / body
         "capture_array._capture_array_reshape", "capture_array._capture_array",
     ]),
     ("functions/interpolate.py", [
